@@ -304,43 +304,46 @@ theorem find_key_of_nodup {rows l : List (Row V)} (hnd : (rows.map Row.key).Nodu
 
 /-! ### what a successful export stores -/
 
-/-- The coordinate columns the exporter writes for a frame. -/
-def coordNames (fr : Frame V) : List String :=
-  if fr.cols.contains "z" then ["x", "y", "z"] else ["x", "y"]
-
 /-- The link between a stored geometry and the frame it was exported from. -/
-structure ExportedFrom (g : Geometry V) (fr : Frame V) (idx : List Nat) : Prop where
+structure ExportedFrom [Cell V] (g : Geometry V) (fr : Frame V) (idx : List Nat) : Prop where
   mesh : meshIndex g = (byElement fr.rows).map Row.key
-  ids : g.pointIds = sortU (fr.rows.map (·.nid))
+  ids : g.pointIds = nodeIds fr
   coords : g.coords = g.pointIds.map (nodeValue fr.rows idx)
   ncoord : ["x", "y", "z"].take g.ncoord = coordNames fr
+  ncoord_len : g.ncoord = (coordNames fr).length
   cidx : colIdx fr.cols (coordNames fr) = some idx
 
-theorem buildPoints_ok [BEq V] {dim dim' : Nat} {fr : Frame V} {ids : List Int} {nc : Nat}
-    {coords : List (List V)} (h : buildPoints dim fr = (dim', .ok (ids, nc, coords))) :
-    ids = sortU (fr.rows.map (·.nid)) ∧ ["x", "y", "z"].take nc = coordNames fr ∧
+theorem coordNames_take (fr : Frame V) : ["x", "y", "z"].take (coordNames fr).length = coordNames fr := by
+  unfold coordNames
+  split <;> rfl
+
+theorem buildPoints_ok [Cell V] {fr : Frame V} {ids : List Int} {nc : Nat}
+    {coords : List (List V)} (h : buildPoints fr = .ok (ids, nc, coords)) :
+    ids = nodeIds fr ∧ nc = (coordNames fr).length ∧ (nodeIds fr).all fits32 = true ∧
+      (fr.cols.contains "z" = true → nodeIds fr ≠ []) ∧
+      (coordNames fr).any (fun c => fr.objCols.contains c) = false ∧
       ∃ idx, colIdx fr.cols (coordNames fr) = some idx ∧ coords = ids.map (nodeValue fr.rows idx) := by
   unfold buildPoints at h
-  unfold coordNames
-  cases hz : fr.cols.contains "z"
-  · simp only [hz, Bool.false_eq_true, if_false] at h ⊢
+  dsimp only at h
+  split at h
+  · simp at h
+  · rename_i hfit
     split at h
     · simp at h
-    · rename_i idx hidx
-      simp only [Prod.mk.injEq, Except.ok.injEq] at h
-      obtain ⟨_, h1, h2, h3⟩ := h
-      subst h1 h2 h3
-      exact ⟨rfl, rfl, idx, hidx, rfl⟩
-  · simp only [hz, if_true] at h ⊢
-    split at h
-    · simp at h
-    · split at h
+    · rename_i hz
+      split at h
       · simp at h
       · rename_i idx hidx
-        simp only [Prod.mk.injEq, Except.ok.injEq] at h
-        obtain ⟨_, h1, h2, h3⟩ := h
-        subst h1 h2 h3
-        exact ⟨rfl, rfl, idx, hidx, rfl⟩
+        split at h
+        · simp at h
+        · rename_i hobj
+          simp only [Except.ok.injEq, Prod.mk.injEq] at h
+          obtain ⟨h1, h2, h3⟩ := h
+          subst h1 h2 h3
+          refine ⟨rfl, rfl, by simpa using hfit, ?_, by simpa using hobj, idx, hidx, rfl⟩
+          intro hzt hnil
+          apply hz
+          rw [hzt, hnil]; rfl
 
 theorem meshIndex_connectivity (rows : List (Row V)) (t : Int × List Int → Nat) (ids : List Int) (nc : Nat)
     (coords : List (List V)) (sets : List GSet) :
@@ -357,55 +360,64 @@ theorem meshIndex_connectivity (rows : List (Row V)) (t : Int × List Int → Na
 
 theorem buildElements_ok {dim : Nat} {fr : Frame V} {els : List (Int × Nat × List Int)}
     (h : buildElements dim fr = .ok els) :
-    els = (connectivity fr.rows).map (fun c => (c.1, (elemType dim c.2.length).getD 0, c.2)) := by
+    els = (connectivity fr.rows).map (fun c => (c.1, (elemType dim c.2.length).getD 0, c.2)) ∧
+      (elemIds fr).all fits32 = true ∧
+      (connectivity fr.rows).all (fun c => (elemType dim c.2.length).isSome) = true := by
   unfold buildElements at h
   dsimp only at h
   split at h
-  · simpa using h.symm
   · simp at h
+  · rename_i hfit
+    split at h
+    · rename_i hall
+      exact ⟨by simpa using h.symm, by simpa using hfit, hall⟩
+    · simp at h
+
+theorem lookup_isSome_false {α β : Type} [BEq α] {k : α} {l : List (α × β)} (h : ¬ (l.lookup k).isSome = true) :
+    l.lookup k = none := by
+  cases hh : l.lookup k with
+  | none => rfl
+  | some x => simp [hh] at h
 
 /-- A successful `add_geometry`: the name was free and the stored geometry is linked to the frame. -/
-theorem addGeometry_ok [BEq V] {dim : Nat} {f : File V} {name : String} {fr : Frame V}
-    (h : (addGeometry dim f name fr).2.2 = none) :
-    f.geoms.lookup name = none ∧ ∃ g idx, (addGeometry dim f name fr).2.1.geoms.lookup name = some g ∧
+theorem addGeometry_ok [Cell V] {f : File V} {name : String} {fr : Frame V}
+    (h : (addGeometry f name fr).2 = none) :
+    f.geoms.lookup name = none ∧ ∃ g idx, (addGeometry f name fr).1.geoms.lookup name = some g ∧
       ExportedFrom g fr idx ∧ g.sets = [] ∧
-      (addGeometry dim f name fr).2.1.groups = f.groups ∧ (addGeometry dim f name fr).2.1.vars = f.vars := by
+      (addGeometry f name fr).1.groups = f.groups ∧ (addGeometry f name fr).1.vars = f.vars ∧
+      g.elements = (connectivity fr.rows).map (fun c => (c.1, (elemType (ownDim fr) c.2.length).getD 0, c.2)) ∧
+      (nodeIds fr).all fits32 = true ∧ (elemIds fr).all fits32 = true ∧
+      (connectivity fr.rows).all (fun c => (elemType (ownDim fr) c.2.length).isSome) = true := by
   unfold addGeometry at h ⊢
   split at h
   · simp at h
   · rename_i hl
-    have hl' : f.geoms.lookup name = none := by
-      cases hh : f.geoms.lookup name with
-      | none => rfl
-      | some x => simp [hh] at hl
+    have hl' : f.geoms.lookup name = none := lookup_isSome_false hl
     simp only [hl, if_false, Bool.false_eq_true]
     split at h
     · simp at h
-    · rename_i dim' ids nc coords hbp
+    · rename_i ids nc coords hbp
       split at h
       · simp at h
       · rename_i els hbe
-        obtain ⟨h1, h2, idx, h3, h4⟩ := buildPoints_ok hbp
-        have h5 := buildElements_ok hbe
-        refine ⟨hl', ⟨ids, nc, coords, els, []⟩, idx, ?_, ?_, rfl, ?_, ?_⟩
-        · simp only [hbp, hbe]
+        obtain ⟨h1, h2, h3, _, _, idx, h5, h6⟩ := buildPoints_ok hbp
+        obtain ⟨h7, h8, h9⟩ := buildElements_ok hbe
+        refine ⟨hl', ⟨ids, nc, coords, els, []⟩, idx, ?_, ?_, rfl, ?_, ?_, h7, h3, h8, h9⟩
+        · simp only [hbe]
           exact lookup_setKey_append _
-        · subst h5
-          exact ⟨meshIndex_connectivity _ _ _ _ _ _, h1, h4, h2, h3⟩
-        · simp only [hbp, hbe]
-        · simp only [hbp, hbe]
+        · subst h7
+          exact ⟨meshIndex_connectivity _ _ _ _ _ _, h1, h6, by subst h2; exact coordNames_take fr, h2, h5⟩
+        · simp only [hbe]
+        · simp only [hbe]
 
 /-- A failed `add_geometry` returns the file it was given. -/
-theorem addGeometry_err [BEq V] {dim : Nat} {f : File V} {name : String} {fr : Frame V} {e : Err}
-    (h : (addGeometry dim f name fr).2.2 = some e) : (addGeometry dim f name fr).2.1 = f := by
+theorem addGeometry_err [Cell V] {f : File V} {name : String} {fr : Frame V} {e : Err}
+    (h : (addGeometry f name fr).2 = some e) : (addGeometry f name fr).1 = f := by
   unfold addGeometry at h ⊢
   split
   · rfl
   · rename_i hl
-    have hl' : f.geoms.lookup name = none := by
-      cases hh : f.geoms.lookup name with
-      | none => rfl
-      | some x => simp [hh] at hl
+    have hl' : f.geoms.lookup name = none := lookup_isSome_false hl
     split
     · simp [eraseKey_append_self hl']
     · split
@@ -423,22 +435,28 @@ theorem colIdx_length {cols names : List String} {idx : List Nat} (h : colIdx co
 theorem ensureGroup_facts (f : File V) (state geom : String) :
     (ensureGroup f state geom).geoms = f.geoms ∧ (ensureGroup f state geom).vars = f.vars ∧
       (ensureGroup f state geom).groups.contains (state, geom) = true ∧
-      ∀ p ∈ (ensureGroup f state geom).groups, p ∈ f.groups ∨ p = (state, geom) := by
+      (∀ p ∈ (ensureGroup f state geom).groups, p ∈ f.groups ∨ p = (state, geom)) ∧
+      ∀ p ∈ f.groups, p ∈ (ensureGroup f state geom).groups := by
   unfold ensureGroup
   split
   · rename_i h
-    exact ⟨rfl, rfl, h, fun p hp => Or.inl hp⟩
-  · refine ⟨rfl, rfl, by simp, fun p hp => ?_⟩
+    exact ⟨rfl, rfl, h, fun p hp => Or.inl hp, fun p hp => hp⟩
+  · refine ⟨rfl, rfl, by simp, fun p hp => ?_, fun p hp => by simp [hp]⟩
     simpa using hp
 
-theorem addVariableCore_ok {f1 : File V} {state geom var : String} {fr : Frame V} {cols : Option (List String)}
+theorem addVariableCore_ok [Cell V] {f1 : File V} {state geom var : String} {fr : Frame V} {cols : Option (List String)}
     {loc : Option Nat} (h : (addVariableCore f1 state geom var fr cols loc).2 = none) :
     ∃ names l idx, resolveCols var cols = some names ∧ resolveLoc var loc = some l ∧ (l = 2 ∨ l = 6) ∧
       colIdx fr.cols names = some idx ∧
       (addVariableCore f1 state geom var fr cols loc).1.geoms = f1.geoms ∧
       (addVariableCore f1 state geom var fr cols loc).1.groups = f1.groups ∧
       (addVariableCore f1 state geom var fr cols loc).1.vars.lookup (state, geom, var)
-        = some (buildVariable l fr idx) := by
+        = some (buildVariable l fr idx) ∧
+      f1.vars.lookup (state, geom, var) = none ∧
+      (addVariableCore f1 state geom var fr cols loc).1.vars
+        = setKey (state, geom, var) (buildVariable l fr idx)
+            (f1.vars ++ [((state, geom, var), (⟨l, names.length, [], []⟩ : Variable V))]) ∧
+      varIdsFit l fr = true := by
   unfold addVariableCore at h ⊢
   split at h
   · simp at h
@@ -456,24 +474,29 @@ theorem addVariableCore_ok {f1 : File V} {state geom var : String} {fr : Frame V
           dsimp only at h ⊢
           split at h
           · simp at h
-          · rename_i idx hidx
-            refine ⟨names, l, idx, hnames, hl, by omega, hidx, ?_, ?_, ?_⟩
-            · simp only [hnames, hl, hl26, if_false, hidx]
-            · simp only [hnames, hl, hl26, if_false, hidx]
-            · simp only [hnames, hl, hl26, if_false, hidx]
-              exact lookup_setKey_append _
+          · rename_i hfit
+            split at h
+            · simp at h
+            · rename_i idx hidx
+              split at h
+              · simp at h
+              · rename_i hobj
+                refine ⟨names, l, idx, hnames, hl, by omega, hidx, ?_, ?_, ?_, lookup_isSome_false hvar, ?_,
+                  by simpa using hfit⟩
+                · simp only [hnames, hl, hl26, if_false, hidx, hfit, hobj, Bool.false_eq_true]
+                · simp only [hnames, hl, hl26, if_false, hidx, hfit, hobj, Bool.false_eq_true]
+                · simp only [hnames, hl, hl26, if_false, hidx, hfit, hobj, Bool.false_eq_true]
+                  exact lookup_setKey_append _
+                · simp only [hnames, hl, hl26, if_false, hidx, hfit, hobj, Bool.false_eq_true]
 
-theorem addVariableCore_err {f1 : File V} {state geom var : String} {fr : Frame V} {cols : Option (List String)}
+theorem addVariableCore_err [Cell V] {f1 : File V} {state geom var : String} {fr : Frame V} {cols : Option (List String)}
     {loc : Option Nat} {e : Err} (h : (addVariableCore f1 state geom var fr cols loc).2 = some e) :
     (addVariableCore f1 state geom var fr cols loc).1 = f1 := by
   unfold addVariableCore at h ⊢
   split
   · rfl
   · rename_i hvar
-    have hvar' : f1.vars.lookup (state, geom, var) = none := by
-      cases hh : f1.vars.lookup (state, geom, var) with
-      | none => rfl
-      | some x => simp [hh] at hvar
+    have hvar' : f1.vars.lookup (state, geom, var) = none := lookup_isSome_false hvar
     split
     · rfl
     · split
@@ -483,11 +506,16 @@ theorem addVariableCore_err {f1 : File V} {state geom var : String} {fr : Frame 
         · dsimp only
           split
           · simp [eraseKey_append_self hvar']
-          · rename_i _ names hnames _ l hl hl26 _ idx hidx
-            simp [hvar, hnames, hl, hl26, hidx] at h
+          · split
+            · simp [eraseKey_append_self hvar']
+            · split
+              · simp [eraseKey_append_self hvar']
+              · rename_i _ names hnames _ l hl hl26 hfit _ idx hidx hobj
+                simp only [hvar, hnames, hl, hl26, hidx, hfit, hobj, if_false, Bool.false_eq_true] at h
+                simp at h
 
 /-- A successful `add_variable`: what the arguments resolved to and what is stored. -/
-theorem addVariable_ok {f : File V} {state geom var : String} {fr : Frame V} {cols : Option (List String)}
+theorem addVariable_ok [Cell V] {f : File V} {state geom var : String} {fr : Frame V} {cols : Option (List String)}
     {loc : Option Nat} (h : (addVariable f state geom var fr cols loc).2 = none) :
     ∃ names l idx, resolveCols var cols = some names ∧ resolveLoc var loc = some l ∧ (l = 2 ∨ l = 6) ∧
       colIdx fr.cols names = some idx ∧
@@ -499,13 +527,13 @@ theorem addVariable_ok {f : File V} {state geom var : String} {fr : Frame V} {co
   · simp at h
   · rename_i hgeo
     simp only [hgeo, if_false, Bool.false_eq_true]
-    obtain ⟨names, l, idx, h1, h2, h3, h4, h5, h6, h7⟩ := addVariableCore_ok h
+    obtain ⟨names, l, idx, h1, h2, h3, h4, h5, h6, h7, _⟩ := addVariableCore_ok h
     obtain ⟨e1, _, e3, _⟩ := ensureGroup_facts f state geom
     exact ⟨names, l, idx, h1, h2, h3, h4, h5.trans e1, h6 ▸ e3, h7⟩
 
 /-- A failed `add_variable` leaves geometries and variables as they were; at most the (empty) group
 `(state, geom)` was created. -/
-theorem addVariable_err {f : File V} {state geom var : String} {fr : Frame V} {cols : Option (List String)}
+theorem addVariable_err [Cell V] {f : File V} {state geom var : String} {fr : Frame V} {cols : Option (List String)}
     {loc : Option Nat} {e : Err} (h : (addVariable f state geom var fr cols loc).2 = some e) :
     (addVariable f state geom var fr cols loc).1.geoms = f.geoms ∧
       (addVariable f state geom var fr cols loc).1.vars = f.vars ∧
@@ -516,15 +544,18 @@ theorem addVariable_err {f : File V} {state geom var : String} {fr : Frame V} {c
   · rename_i hgeo
     simp only [hgeo, if_false, Bool.false_eq_true] at h
     rw [addVariableCore_err h]
-    obtain ⟨e1, e2, _, e4⟩ := ensureGroup_facts f state geom
+    obtain ⟨e1, e2, _, e4, _⟩ := ensureGroup_facts f state geom
     exact ⟨e1, e2, e4⟩
 
 /-- A successful `add_node_set` / `add_element_set`. -/
 theorem addSet_ok {f : File V} {kind : Nat} {geom : String} {ids : List Int} {fr : Frame V} {nameOk : Bool}
     {name : String} (h : (addSet f kind geom ids fr nameOk name).2 = none) :
     ∃ g, f.geoms.lookup geom = some g ∧
+      (addSet f kind geom ids fr nameOk name).1
+        = { f with geoms := setKey geom { g with sets := g.sets ++ [⟨kind, name, ids⟩] } f.geoms } ∧
       (addSet f kind geom ids fr nameOk name).1.geoms.lookup geom
-        = some { g with sets := g.sets ++ [⟨kind, name, ids⟩] } := by
+        = some { g with sets := g.sets ++ [⟨kind, name, ids⟩] } ∧
+      ids.all fits32 = true := by
   unfold addSet at h ⊢
   generalize idsOf kind fr = m at h ⊢
   split at h
@@ -535,10 +566,14 @@ theorem addSet_ok {f : File V} {kind : Nat} {geom : String} {ids : List Int} {fr
     · rename_i h2
       split at h
       · simp at h
-      · rename_i g hg
-        refine ⟨g, hg, ?_⟩
-        simp only [h1, h2, if_false, hg, Bool.false_eq_true]
-        exact lookup_setKey_self hg
+      · rename_i h3
+        split at h
+        · simp at h
+        · rename_i g hg
+          refine ⟨g, hg, ?_, ?_, by simpa using h3⟩
+          · simp only [h1, h2, h3, if_false, hg, Bool.false_eq_true]
+          · simp only [h1, h2, h3, if_false, hg, Bool.false_eq_true]
+            exact lookup_setKey_self hg
 
 theorem addSet_err {f : File V} {kind : Nat} {geom : String} {ids : List Int} {fr : Frame V} {nameOk : Bool}
     {name : String} {e : Err} (h : (addSet f kind geom ids fr nameOk name).2 = some e) :
@@ -551,8 +586,104 @@ theorem addSet_err {f : File V} {kind : Nat} {geom : String} {ids : List Int} {f
     · rfl
     · split
       · rfl
-      · rename_i h1 h2 _ g hg
-        rw [if_neg h1, if_neg h2] at h
-        simp [hg] at h
+      · split
+        · rfl
+        · rename_i h1 h2 h3 _ g hg
+          rw [if_neg h1, if_neg h2, if_neg h3] at h
+          simp [hg] at h
+
+/-! ### success conditions -/
+
+theorem sortU_all (p : Int → Bool) (l : List Int) : (sortU l).all p = l.all p := by
+  rw [Bool.eq_iff_iff]
+  simp only [List.all_eq_true, mem_sortU]
+
+theorem nodeIds_all_fits {fr : Frame V} : (nodeIds fr).all fits32 = true ↔ ∀ r ∈ fr.rows, fits32 r.nid = true := by
+  unfold nodeIds
+  rw [sortU_all]
+  simp
+
+theorem elemIds_all_fits {fr : Frame V} : (elemIds fr).all fits32 = true ↔ ∀ r ∈ fr.rows, fits32 r.eid = true := by
+  unfold elemIds
+  rw [sortU_all]
+  simp
+
+theorem nodeIds_ne_nil {fr : Frame V} (h : fr.rows ≠ []) : nodeIds fr ≠ [] := by
+  cases hr : fr.rows with
+  | nil => exact absurd hr h
+  | cons r rs =>
+    intro hn
+    have : r.nid ∈ nodeIds fr := mem_sortU.2 (by rw [hr]; simp)
+    rw [hn] at this
+    cases this
+
+theorem colIdx_of_mem {cols names : List String} (h : ∀ c ∈ names, c ∈ cols) :
+    colIdx cols names = some (names.map (fun n => cols.idxOf n)) := by
+  unfold colIdx
+  rw [if_pos]
+  simpa using h
+
+theorem any_objCols_false {names objCols : List String} (h : ∀ c ∈ names, c ∉ objCols) :
+    names.any (fun c => objCols.contains c) = false := by
+  rw [List.any_eq_false]
+  intro c hc
+  simpa using h c hc
+
+theorem buildPoints_succeeds [Cell V] {fr : Frame V} (h1 : ∀ r ∈ fr.rows, fits32 r.nid = true)
+    (h2 : fr.cols.contains "z" = true → fr.rows ≠ [])
+    (h3 : ∀ c ∈ coordNames fr, c ∈ fr.cols ∧ c ∉ fr.objCols) :
+    ∃ idx, buildPoints fr = .ok (nodeIds fr, (coordNames fr).length, (nodeIds fr).map (nodeValue fr.rows idx)) := by
+  have e1 : (nodeIds fr).all fits32 = true := nodeIds_all_fits.2 h1
+  have e2 : (fr.cols.contains "z" && (nodeIds fr).isEmpty) = false := by
+    cases hz : fr.cols.contains "z" with
+    | false => rfl
+    | true =>
+      have := nodeIds_ne_nil (h2 hz)
+      cases hn : nodeIds fr with
+      | nil => exact absurd hn this
+      | cons a l => rfl
+  have e3 := colIdx_of_mem (fun c hc => (h3 c hc).1)
+  have e4 := any_objCols_false (fun c hc => (h3 c hc).2)
+  refine ⟨(coordNames fr).map (fun n => fr.cols.idxOf n), ?_⟩
+  unfold buildPoints
+  simp only [e1, e2, e3, e4, Bool.not_true, Bool.false_eq_true, if_false]
+
+theorem buildElements_succeeds {dim : Nat} {fr : Frame V} (h1 : ∀ r ∈ fr.rows, fits32 r.eid = true)
+    (h2 : ∀ c ∈ connectivity fr.rows, (elemType dim c.2.length).isSome = true) :
+    buildElements dim fr
+      = .ok ((connectivity fr.rows).map (fun c => (c.1, (elemType dim c.2.length).getD 0, c.2))) := by
+  have e1 : (elemIds fr).all fits32 = true := elemIds_all_fits.2 h1
+  have e2 : (connectivity fr.rows).all (fun c => (elemType dim c.2.length).isSome) = true := by
+    rw [List.all_eq_true]; exact h2
+  unfold buildElements
+  simp only [e1, e2, Bool.not_true, Bool.false_eq_true, if_false, if_true]
+
+theorem addVariableCore_groups [Cell V] (f1 : File V) (state geom var : String) (fr : Frame V)
+    (cols : Option (List String)) (loc : Option Nat) :
+    (addVariableCore f1 state geom var fr cols loc).1.groups = f1.groups ∧
+      (addVariableCore f1 state geom var fr cols loc).1.geoms = f1.geoms := by
+  cases he : (addVariableCore f1 state geom var fr cols loc).2 with
+  | some e => rw [addVariableCore_err he]; exact ⟨rfl, rfl⟩
+  | none =>
+    obtain ⟨_, _, _, _, _, _, _, h5, h6, _⟩ := addVariableCore_ok he
+    exact ⟨h6, h5⟩
+
+theorem buildVariable_two [Cell V] (fr : Frame V) (idx : List Nat) :
+    buildVariable 2 fr idx = ⟨2, idx.length, nodeIds fr, (nodeIds fr).map (nodeValue fr.rows idx)⟩ := rfl
+
+theorem buildVariable_six [Cell V] (fr : Frame V) (idx : List Nat) :
+    buildVariable 6 fr idx = ⟨6, idx.length, elemIds fr, (byElement fr.rows).map (selRow idx)⟩ := rfl
+
+/-! ### `GroupBy.first()` on a constant column -/
+
+theorem firstValid_const [Cell V] {l : List V} {c : V} (hne : l ≠ []) (h : ∀ x ∈ l, x = c) :
+    firstValid l = some c := by
+  unfold firstValid
+  split
+  · rename_i v hv
+    rw [h v (List.mem_of_find?_eq_some hv)]
+  · cases l with
+    | nil => exact absurd rfl hne
+    | cons a l => simp [h a (by simp)]
 
 end PylifeVerif.Vmap
